@@ -2,7 +2,8 @@
 
 Engine simnet.  Monitors: (1) per (consumer, origin incarnation) strictly increasing origin sequence number over the
 consumer's whole history, all its incarnations concatenated (unique provenance tokens make duplicates and reorderings
-directly visible); (2) every delivered frame is compared inside the consumer with the frame regenerated from its token
+directly visible), and per (consumer incarnation, synchronized source) strictly increasing MESSAGE IDS of the delivered
+sets, looked up in the transport log by token (a restarted publisher that re-issues an id must not get it delivered again); (2) every delivered frame is compared inside the consumer with the frame regenerated from its token
 (image bytes, data, presence of image, format) - the payload really travelled through MQ.frames2topicmsgs, the simulated
 wire and MQ.topicmsgs2frames; (3) the delivered topic names are within what the subscription form allows (hidden topics
 only with '*' or by name), judged against the transport log.
@@ -12,7 +13,7 @@ from ..simnet import scenarios, world, monitors
 
 PROPERTY = 'C02'
 LEVEL = 'exploration'
-TECHNIQUE = 'per-key monotonicity checker over recorded consumer histories + in-consumer payload comparison against token-regenerated frames + subscription-set checker against the transport log, on seeded simulated-network executions with duplicated/stale requests, restarts and loss'
+TECHNIQUE = 'per-key monotonicity checkers (origin sequence numbers and message ids) over recorded consumer histories + in-consumer payload comparison against token-regenerated frames + subscription-set checker against the transport log, on seeded simulated-network executions with duplicated/stale requests, restarts and loss'
 RULE = ('same scenario space as C01 with the message-content palette {data, nested data, raw BGR/RGB/GRAY, 1x1, jpg-backed}, '
         'outputs_jpg in {None, True, False}, hidden topics (_filter, _metrics) switched on, all subscription forms, kill/restart '
         'of publishers and consumers with restart delays below and above the connection timeout; non-trivial = some consumer '
@@ -60,6 +61,7 @@ def dup_requests(w):
 def judge(w, scn, res):
     topo = scenarios.Topo(scn)
     bad = monitors.check_order(w, topo, res)
+    bad += monitors.check_ids(w, topo, res)
     # subscription clause (reuses the set mapper of C01, keeps only that mechanism)
     bad += [b for b in monitors.check_sets(w, topo, common.Result()) if b[0] in ('unsubscribed-topic', 'unmapped-frame', 'wrong-topic-name')]
     per_cons = {}
@@ -121,7 +123,7 @@ def run_shard(ctx):
     return res
 
 
-RELEVANT = lambda mech: mech in ('duplicate', 'reorder', 'ephemeral-reorder', 'content-altered', 'unsubscribed-topic', 'unmapped-frame', 'wrong-topic-name')
+RELEVANT = lambda mech: mech in ('message-id-repeated', 'message-id-went-back', 'duplicate', 'reorder', 'ephemeral-reorder', 'content-altered', 'unsubscribed-topic', 'unmapped-frame', 'wrong-topic-name')
 
 
 def realnet_pass(ctx, res):
@@ -155,7 +157,7 @@ def realnet_pass(ctx, res):
             continue
         topo = scenarios.Topo(scn)
         r2 = common.Result()
-        bad = monitors.check_sets(w, topo, r2) + monitors.check_order(w, topo, r2)
+        bad = monitors.check_sets(w, topo, r2) + monitors.check_order(w, topo, r2) + monitors.check_ids(w, topo, r2)
         res.count('realnet_sets_checked', r2.counters.get('sets_checked', 0))
         res.count('realnet_deliveries_ordered', r2.counters.get('deliveries_ordered', 0))
         res.count('realnet_real_sigkills', len(w.kills))
